@@ -80,6 +80,11 @@ class C03(Check):
                 o = gen.GenOpts(max_depth=2, ctx_weight=8, tee_weight=2, allow_progress=False, no_streaming_mutation=True, scale=True,
                                 exclude_ops=('fvariance', 'fstddev'))
                 prog, _ = gen.gen_pipeline(rng, 'i', rng.randint(1, 3), o)
+                # (the large context is not left to chance: the scale cases take these in turn, around the generated pipeline)
+                big = [['roll', 300, 100, None], ['roll', 257, 256, None], ['group_by', 'mod:300', None], ['roll', 260, 130, None],
+                       ['split', 'div:300', None], ['roll', 400, 399, None], ['group_by', 'kt:1000', None]][(k // 150) % 7]
+                if (k // 150) % 2 == 0 or len(prog) > 2:
+                    prog = [big[:-1] + [prog]]
                 yield {'prog': prog, 'items': [rng.randint(0, 900) for _ in range(rng.choice([450, 900]))]}
                 continue
             depth = rng.choice([1, 2, 3, 3, 4])
